@@ -168,7 +168,7 @@ def run_history(ptn, init, ops):
 
         with wrap.patched((OG, 'merge_edges', mk_merge), (OG, 'simplify', mk_simplify),
                           (OG, 'rename_node_id', lambda o: mk_rename(o, 'ren_n')),
-                          (OG, 'rename_edge_id', lambda o: mk_rename(o, 'ren_e'))) as missing:
+                          (OG, 'rename_edge_id', lambda o: mk_rename(o, 'ren_e')), trace=tr) as missing:
             state['have_rename_hooks'] = not any('rename' in m for m in missing)
             for op in ops:
                 kind = op[0]
